@@ -158,6 +158,7 @@ func main() {
 	rng := c.NewRng(*seed)
 	out := c.NewOut()
 	defer out.Flush()
+	successors(context.Background(), out)
 	cases := make([]Case, *n)
 	mods := make([]*c.ModSpec, *n)
 	bins := make([][]byte, *n)
